@@ -19,6 +19,7 @@ RULE = ('valid programs (random derivations of the grammar, 1-5 statements, acce
 RULE += " Besides the neutral-tree comparison the implementation's own == on trees must hold; comment bodies contain FF/VT/FS-RS/NEL/U+2028/U+2029 followed by code-looking text; 15 % of the bases are preceded by an arbitrary earlier call."
 RULE += ' Pairs with equal trees are also evaluated (short programs always, others 8 %) with a dict, a __missing__ mapping, a defaultdict or a Counter as names: outcome, value and names must agree.'
 RULE += ' Base programs also come from the corpus grown by a coverage-guided fuzzing run per worker (atheris, differential target; 5 s quick, 100 s thorough): every corpus text that parses (<= 300 characters) goes through all rewrites.'
+RULE += ' One pair in five is compared once more on a caching parser (parse_cache={}) that has first parsed the near misses of the rewritten text - the same characters with layout folded in ways that are NOT all insignificant (line breaks to blanks or to ";", all blanks removed, comments stripped, case folded, quotes swapped, leading/trailing layout) - so a cache that normalises its keys too eagerly hands back another program\'s tree.'
 ASSUMPTIONS = ['the oracle is the implementation\'s own tree of the base text (metamorphic); R1 is used only for positions',
                'parentheses are added only around complete subexpressions (never parameter names, call names, assignment/del targets or lambda parameter lists)',
                'comments are placed only before existing line ends; ; <-> newline only at bracket depth 0; no trailing comma for empty lists or lambda parameter lists']
@@ -29,6 +30,7 @@ CASE_DEADLINE = 20
 def setup(ctx):
     from smartquery import SqParser
     ctx.P = SqParser()
+    ctx.PC = SqParser(parse_cache={})       # caching parser of the near-miss stage (see near_misses)
     from smartquery import functions as _functions
     ctx.count('table_entries_unknown_to_the_pinned_tree_added_to_the_identifier_pool', len(gram.use_table_names(gram.table_names())))
 
@@ -49,6 +51,36 @@ def impl_tree(ctx, text):
         t = ctx.P.parse(text)
         ctx.last_tree = t
         return ('ok', treeconv.norm(treeconv.conv(t)))
+    except Exception as e:
+        return ('rej', '%s: %s' % (type(e).__name__, str(e)[:80]))
+
+
+def near_misses(text):
+    """Texts a cache key normaliser could confuse with `text`: the same characters with layout folded in ways that are NOT all insignificant
+    (a line break outside brackets separates statements and ends a comment; case matters; blanks inside strings matter)."""
+    out = [' '.join(text.split()), text.replace('\n', ' ').replace('\r', ' '), text.replace('\n', ';'), text.strip(), text.lower(), text.upper(),
+           re.sub(r'[ \t]+', '', text), re.sub(r'\s+', '', text), re.sub(r'#[^\n]*', '', text), re.sub(r'[ \t]+', ' ', text), text.replace('\r\n', '\n'),
+           text.replace(';', '\n'), text.replace('"', "'"), text.rstrip() + '\n', '\n' + text]
+    seen, res = {text}, []
+    for t in out:
+        if t not in seen:
+            seen.add(t)
+            res.append(t)
+    return res
+
+
+def cached_tree(ctx, text2):
+    """Tree of text2 from a caching parser that has just been shown text2's near misses (each its own program, parsed or rejected on its own)."""
+    if len(ctx.PC.parse_cache) > 300:
+        ctx.PC.parse_cache.clear()
+    for t in near_misses(text2):
+        try:
+            ctx.PC.parse(t)
+        except Exception:
+            pass
+        ctx.count('near_miss_texts_parsed_first_on_the_caching_parser')
+    try:
+        return ('ok', treeconv.norm(treeconv.conv(ctx.PC.parse(text2))))
     except Exception as e:
         return ('rej', '%s: %s' % (type(e).__name__, str(e)[:80]))
 
@@ -221,6 +253,14 @@ def run_case(case, ctx):
             ctx.violation(what, ('pair', base, text2, kind), detail={'base': base, 'rewritten': text2, 'base_tree': str(b[1])[:500], 'rewritten_outcome': str(g[1])[:500]})
         elif ctx.counters['pairs_compared'] % 3000 == 1:
             ctx.sample({'rewrite': kind, 'base': base, 'rewritten': text2})
+        if g == b and r.random() < 0.2:
+            # the same pair on a caching parser that has first been shown the near misses of the rewritten text (programs of their own)
+            ctx.count('pairs_also_compared_on_a_caching_parser_after_near_misses')
+            gc = cached_tree(ctx, text2)
+            if gc != b:
+                ctx.violation('%s: on a caching parser that parsed near-miss texts first, the rewritten program %s' % (kind, 'is rejected' if gc[0] != 'ok' else 'parses to a different tree'),
+                              ('pair', base, text2, kind), detail={'base': base, 'rewritten': text2, 'near_misses_parsed_first': near_misses(text2)[:15], 'base_tree': str(b[1])[:500], 'rewritten_outcome': str(gc[1])[:500]})
+                return
         if g == b and (len(types) <= 4 or r.random() < 0.08):
             # ... and denotes the same program for the host: evaluating the two layouts gives the same outcome, value and names, whatever mapping serves
             # as names (a dict, mappings defining __missing__, a Counter)
